@@ -80,7 +80,7 @@ let handle (toks : string list) : string =
     (match Cli.refid_of (Stdlib.List.map z_of_string bytes) with
      | Some v -> "ok " ^ string_of_z v
      | None -> "rejected")
-  | "shm" :: rest ->
+  | ("shm" | "shmc" as tag) :: rest ->
     let ord_of s = match int_of_string s with
       | 0 -> Machine.Rlx | 1 -> Machine.Acq | 2 -> Machine.Rel | 3 -> Machine.AcqRel | _ -> Machine.SeqCst in
     let fence_of s = if int_of_string s < 0 then None else Some (ord_of s) in
@@ -108,7 +108,7 @@ let handle (toks : string list) : string =
            toks t (Machine.TR (nat_of_int (int_of_string j), ch) :: acc)
          | x :: _ -> failwith ("shm: bad token " ^ x) in
        let ts = (match tl with _ntok :: t -> toks t [] | [] -> []) in
-       let (m, obs) = Machine.m_run_std (Machine.m_init c) ts in
+       let (m, obs) = (if tag = "shmc" then Machine.m_run_const else Machine.m_run_std) (Machine.m_init c) ts in
        let loc_s = function Machine.LVer -> "v" | Machine.LGen -> "g" | Machine.LCell i -> "c" ^ string_of_int (int_of_nat i) in
        let kind_s = function Machine.ALoad -> "L" | Machine.AStore -> "S" | Machine.AFence -> "F" | Machine.ACellW -> "W" | Machine.ACellR -> "R" in
        let cells l = String.concat "," (Stdlib.List.map string_of_z l) in
